@@ -10,7 +10,7 @@
                        lens-through-embedded-pointer shape / the pointer container (documented in the evidence) *)
 EXTENDS LayoutShapes, Optics, LayoutBoundary
 CONSTANTS WithBoundary
-MCInit == sh \in (IF WithBoundary THEN {<<>>} \cup BoundarySet ELSE {<<>>})
+MCInit == sh \in (IF WithBoundary THEN {<<>>} \cup BoundarySetHseq ELSE {<<>>})
 Spec == MCInit /\ [][Next]_sh
 
 AllRequests(P(_,_,_,_)) == sh # <<>> => LET u == Unfold(sh)  l == Listing(sh)  rs == Requests(sh, l) IN \A r \in 1..Len(rs) : P(sh, u, l, rs[r])
